@@ -238,6 +238,18 @@ def decodeBorsh (ty : AcctType) (a : Acct) : Except Err (Option (List Nat)) :=
     (if ty.valid (a.data.drop ty.W) then .ok (some (a.data.drop ty.W)) else .error .borshIo)
   else .ok none
 
+/-- The value held by the `BorshAccount` wrapper after the validation of `Init<…>`: `init_account`
+stores the initial value (`self.data = Some(data)`) as its very last step, i.e. only when it returns
+`Ok(true)`; in every other case (not needed, any error) the wrapper keeps what decode put there. -/
+def wrapperAfterInit (env : Env) (ty : AcctType) (ifNeeded : Bool) (tgt : Target) (fa : FunderArg)
+    (enc : List Nat) (s : St) (decoded : Option (List Nat)) : Option (List Nat) :=
+  match initSeeds env tgt, fa.resolve with
+  | .ok acctSeeds, some f =>
+    match (initAccount env ty ifNeeded tgt.key f acctSeeds enc s).1 with
+    | .ok true => some enc
+    | _ => decoded
+  | _, _ => decoded
+
 /-- `BorshAccount::serialize` with the cached value's encoding `enc`. -/
 def serializeBorsh (env : Env) (ty : AcctType) (tgt : Key) (cached : Option (List Nat)) (w : World) :
     World :=
